@@ -93,7 +93,29 @@ def _lower_item(c: Any) -> Any:
 class _SymSeq:
     _sym = True
     HASH_OK = False
-    __slots__ = ('items', 'kind')
+    __slots__ = ('_items', '_thunk', 'kind')
+
+    @property
+    def items(self) -> list:
+        if self._items is None:
+            # lazily rendered (e.g. ``b'%d' % symbolic_int``): forks on the
+            # digit count happen only if somebody looks at the bytes
+            self._items = list(self._thunk())
+            self._thunk = None
+        return self._items
+
+    @items.setter
+    def items(self, v: Any) -> None:
+        self._items = v
+        self._thunk = None
+
+    @classmethod
+    def lazy(cls, thunk: Any, kind: str = 'bytes') -> Any:
+        self = cls.__new__(cls)
+        self._items = None
+        self._thunk = thunk
+        self.kind = kind
+        return self
 
     def _own(self, x: Any) -> 'list | None':
         raise NotImplementedError
@@ -105,6 +127,8 @@ class _SymSeq:
         return len(self.items)
 
     def __bool__(self) -> bool:
+        if self._items is None:
+            return True  # a rendered number is never empty
         return len(self.items) > 0
 
     def is_concrete(self) -> bool:
@@ -119,7 +143,7 @@ class _SymSeq:
 
     def __getattr__(self, name: str) -> Any:
         # unmodelled method: only a fully concrete value may use the real one
-        if name.startswith('__') or name in ('items', 'kind'):
+        if name.startswith('__') or name in ('items', 'kind', '_items', '_thunk'):
             raise AttributeError(name)
         if self.is_concrete():
             return getattr(self.lower_concrete(), name)
@@ -162,12 +186,20 @@ class _SymSeq:
         return (not r) if isinstance(r, bool) else ~r
 
     def __add__(self, o: Any) -> Any:
+        if _is_lazy(self) or _is_lazy(o):
+            if not isinstance(o, (_SymSeq, bytes, bytearray, memoryview, str)):
+                return NotImplemented
+            return type(self).lazy(lambda: self.items + self._own(o), self.kind)
         other = self._own(o)
         if other is None:
             return NotImplemented
         return self._new(self.items + other)
 
     def __radd__(self, o: Any) -> Any:
+        if _is_lazy(self):
+            if not isinstance(o, (_SymSeq, bytes, bytearray, memoryview, str)):
+                return NotImplemented
+            return type(self).lazy(lambda: self._own(o) + self.items, self._kind_of(o))
         other = self._own(o)
         if other is None:
             return NotImplemented
@@ -393,6 +425,12 @@ class _SymSeq:
         return self._new(out)
 
     def join(self, parts: Iterable) -> Any:
+        parts = list(parts)
+        if any(_is_lazy(p) for p in parts):
+            return type(self).lazy(lambda: self._join_now(parts).items, self.kind)
+        return self._join_now(parts)
+
+    def _join_now(self, parts: Iterable) -> Any:
         out: list = []
         first = True
         for p in parts:
@@ -877,14 +915,22 @@ def lift(x: Any) -> Any:
     return x
 
 
-def sym_format(fmt: Any, args: Any) -> Any:
+def _is_lazy(x: Any) -> bool:
+    return isinstance(x, _SymSeq) and x._items is None
+
+
+def sym_format(fmt: Any, args: Any, _lazy: bool = False) -> Any:
     """``fmt % args`` for bytes/str fmt with symbolic arguments.
     Supports %b %s %d %i %r(no) %%; no width/precision."""
     is_bytes = isinstance(fmt, (bytes, SymBytes))
-    f = items_of(fmt)
-    assert f is not None
     if not isinstance(args, tuple):
         args = (args,)
+    if not _lazy and any(isinstance(a, SymInt) or _is_lazy(a) for a in args):
+        cls = SymBytes if is_bytes else SymStr
+        return cls.lazy(lambda: sym_format(fmt, args, True).items,
+                        'bytes' if is_bytes else 'str')
+    f = items_of(fmt)
+    assert f is not None
     out: list = []
     ai = 0
     i = 0
